@@ -23,6 +23,9 @@ def run(tier, replay=None):
     # the feature that selects this code must be reachable from the crate a user enables it on (manifest wiring)
     from .. import features
     features.check(rep)
+    # values built by the compile-time macros belong to this property's domain as well: the macro witnesses of C16 (cached per tree)
+    from . import c16
+    c16.witness_family(rep, tier)
     rep.explanation = ('Composition: (a) every table equals the CLDR data row for row and is strictly sorted in the order of the binary search (data rules, exhaustive); '
                        '(b) the lookup cascade read from the MIR of likelysubtags::maximize equals the decision list of the property for each of the 8 presence patterns: '
                        'which table, keyed by the integer forms of which parameters, in which order, first hit returned, row value decoded with the tables\' byte order, '
